@@ -108,7 +108,7 @@ def setterG (fixThz fixPoling : Bool) (ext : Ext α) (p : Path) (s : Setup α) (
   | .pumpAveragePower => .ok { s with pumpAveragePower := v * 1.0e-3 * 1000.0 }
   | .pumpBandwidth => .ok { s with pumpBandwidth := v * nano }
   | .polingPeriod => assignPolingPeriod fixPoling ext s (v * micro)
-  | .deff => .ok { s with deff := v * pmPerVolt }
+  | .deff => .ok { s with deff := toDeff v }
 
 /-- the repaired code -/
 def setter (ext : Ext α) (p : Path) (s : Setup α) (v : α) : Outcome (Setup α) :=
